@@ -125,7 +125,16 @@ pub struct Model<'a> {
 
 impl<'a> Model<'a> {
     pub fn originals(&self, s: &Spec) -> Vec<Vec<u8>> {
-        data_dense(s.k, s.b, self.seed ^ (0x1000 + s.parity as u64))
+        let mut d = data_dense(s.k, s.b, self.seed ^ (0x1000 + s.parity as u64));
+        // encoders, rounds of even parity: only the first shard is non-zero (data-dependent state such as an
+        // "everything so far was zero" flag must survive rejected calls and must not leak into the next round,
+        // whose data is dense)
+        if !s.decoder && s.parity == 0 {
+            for sh in d.iter_mut().skip(1) {
+                sh.fill(0);
+            }
+        }
+        d
     }
     pub fn recovery(&self, s: &Spec) -> Vec<Vec<u8>> {
         self.refm.encode(spec_is_high(s.kind, s.k, s.r), s.k, s.r, &self.originals(s))
